@@ -129,7 +129,7 @@ def check(R, F, P, cfg):
             fp = footprint(a[1], cellname, mark_vals, S, x)
             ok = fp is not None and (fp & ~want[1] & M16) == 0 and cellname == want[0]
             R.inst("R16.3", "footprint:%s" % short(f.npath), ok, "store %s into self.%s may change bits %s; allowed field: %s bits %s" % (fmt(a[1])[:90], cellname, "?" if fp is None else hex(fp), want[0], hex(want[1])), where=x.where(), cfg=cfg)
-    R.floor("R16.3", cfg, 8, seen)
+    R.floor("R16.3", cfg, 6 + (2 if fin else 0) + (8 if weak else 0), seen)
     # no store to these cells outside the modules
     outside = []
     for (f, bb, ci) in P.call_sites(lambda c_: c_["npath"].startswith(("std::cell::Cell::<T>::set", "std::cell::Cell::<T>::replace"))):
